@@ -187,10 +187,22 @@ def build(cfg):
   return getattr(Q, cfg["cls"])(**kw)
 
 
-def call(q, x):
+def call(q, x, phase=0, seed=None):
+  """One call.  phase = Keras learning phase during the call (always restored
+  to 0); seed (drawn, stored in the case) is given to tf.random.set_seed
+  immediately before the call, so stochastic rounding is reproducible."""
   import tensorflow as tf  # pylint: disable=g-import-not-at-top
-  y = q(tf.constant(np.asarray(x, dtype=F32)))
-  return np.asarray(y.numpy(), dtype=F32)
+  xt = tf.constant(np.asarray(x, dtype=F32))
+  if not phase and seed is None:
+    return np.asarray(q(xt).numpy(), dtype=F32)
+  K = tf.keras.backend
+  K.set_learning_phase(int(phase))
+  try:
+    if seed is not None:
+      tf.random.set_seed(int(seed))
+    return np.asarray(q(xt).numpy(), dtype=F32)
+  finally:
+    K.set_learning_phase(0)
 
 
 def scale_of(q):
@@ -319,6 +331,157 @@ def c04_case():
 # C05 cases
 
 
+# Reconfiguration histories: case["steps"] is a list of operations applied to
+# the freshly constructed quantizer (cfg = CONSTRUCTOR arguments) before the
+# checked call:
+#   {"op": "call"}                       quantize a priming tensor
+#   {"op": "max"|"min"|"range"|"str"|"config"}   read-only use
+#   {"op": "set", "attr": "symmetric"|"alpha", "value": v}   documented
+#                                        modifiable attributes
+#   {"op": "trainable"}                  what every QKeras layer does with its
+#                                        weight quantizer (alpha None ->
+#                                        'auto_po2', symmetric True)
+#   {"op": "layer", "kind": K}           hand the quantizer to a layer
+#                                        constructor, use the layer's quantizer
+# c05_effective() gives the configuration in force at the checked call.
+
+LAYER_KINDS = ["QDense", "QConv2D", "QConv1D", "QDepthwiseConv2D"]
+
+
+def c05_effective(cfg, steps):
+  kw = dict(cfg["kw"])
+  for s in steps or []:
+    if s["op"] == "set":
+      kw[s["attr"]] = s["value"]
+    elif s["op"] in ("trainable", "layer"):
+      if kw.get("alpha") is None:
+        kw["alpha"] = "auto_po2"
+        kw["symmetric"] = 1
+  return {"cls": cfg["cls"], "kw": kw}
+
+
+def c05_routes(steps):
+  out = []
+  for s in steps or []:
+    if s["op"] == "set":
+      r = "sym_flip" if s["attr"] == "symmetric" else "alpha_switch"
+    elif s["op"] in ("trainable", "layer"):
+      r = s["op"]
+    else:
+      continue
+    if r not in out:
+      out.append(r)
+  return out
+
+
+def apply_steps(q, steps, x_prime, phase=0, seed=None):
+  """Runs the history on q; returns the quantizer to be called afterwards."""
+  import qkeras  # pylint: disable=g-import-not-at-top
+  for s in steps or []:
+    op = s["op"]
+    if op == "call":
+      call(q, x_prime, phase, seed)
+    elif op in ("max", "min", "range"):
+      getattr(q, op)()
+    elif op == "str":
+      str(q)
+    elif op == "config":
+      q.get_config()
+    elif op == "set":
+      setattr(q, s["attr"], s["value"])
+    elif op == "trainable":
+      q._set_trainable_parameter()    # pylint: disable=protected-access
+    elif op == "layer":
+      kind = s["kind"]
+      if kind == "QDense":
+        q = qkeras.QDense(3, kernel_quantizer=q).kernel_quantizer_internal
+      elif kind == "QConv2D":
+        q = qkeras.QConv2D(2, (2, 2),
+                           kernel_quantizer=q).kernel_quantizer_internal
+      elif kind == "QConv1D":
+        q = qkeras.QConv1D(2, 2, kernel_quantizer=q).kernel_quantizer_internal
+      elif kind == "QDepthwiseConv2D":
+        q = qkeras.QDepthwiseConv2D(
+            (2, 2), depthwise_quantizer=q).depthwise_quantizer_internal
+      else:
+        raise ValueError(kind)
+    else:
+      raise ValueError(op)
+  return q
+
+
+def _c05_history(draw, cls, kw):
+  """kw = configuration wanted at the checked call.  Returns (constructor kw,
+  steps) of a history that ends in that configuration."""
+  st = _st()
+  alpha = kw["alpha"]
+  restricted = any(kw.get(k) is not None for k in (
+      "elements_per_scale", "min_po2_exponent", "max_po2_exponent"))
+  routes = []
+  if cls == "quantized_linear":
+    routes += ["sym_flip", "sym_flip", "alpha_switch"]
+    if alpha == "auto_po2" and kw.get("symmetric", 1) == 1:
+      routes += ["trainable", "layer", "layer"]
+  elif kw.get("post_training_scale") is None:
+    if not restricted:
+      routes.append("alpha_switch")
+    if alpha == "auto_po2":
+      routes += ["trainable", "layer", "layer"]
+  if not routes:
+    return kw, None
+  route = draw(st.sampled_from(routes))
+  ctor = dict(kw)
+  ops = ["call", "call", "max", "min", "str", "config"]
+  if cls == "quantized_linear":
+    ops.append("range")
+  if cls == "quantized_bits" and restricted:
+    ops = [o for o in ops if o != "call"]   # alpha=None + these options asserts
+
+  called = [False]
+
+  def uses(lo=1):
+    seq = draw(st.lists(st.sampled_from(ops), min_size=lo, max_size=3))
+    out = []
+    for o in seq:
+      if o == "range" and called[0]:
+        # range() multiplies the recorded scale with a vector of codes; after
+        # a call the scale is per channel and does not broadcast with it
+        o = "max"
+      called[0] = called[0] or o == "call"
+      out.append({"op": o})
+    return out
+
+  steps = []
+  if route == "sym_flip":
+    fin = int(kw.get("symmetric", 1))
+    as_bool = draw(st.booleans())
+    val = (lambda v: bool(v)) if as_bool else (lambda v: int(v))
+    if draw(st.integers(0, 3)) == 0:      # there and back again
+      ctor["symmetric"] = fin
+      steps = uses(0) + [{"op": "set", "attr": "symmetric", "value": val(1 - fin)}]
+      steps += uses() + [{"op": "set", "attr": "symmetric", "value": val(fin)}]
+    else:
+      ctor["symmetric"] = 1 - fin
+      steps = uses() + [{"op": "set", "attr": "symmetric", "value": val(fin)}]
+  elif route == "alpha_switch":
+    other = "auto" if alpha == "auto_po2" else "auto_po2"
+    if cls == "quantized_linear":
+      ctor["alpha"] = draw(st.sampled_from([None, other]))
+    else:
+      ctor["alpha"] = other
+    steps = uses() + [{"op": "set", "attr": "alpha", "value": alpha}]
+  else:
+    ctor["alpha"] = None
+    sym = draw(st.sampled_from([None, 0, 1]))
+    ctor.pop("symmetric", None)
+    if sym is not None:
+      ctor["symmetric"] = sym
+    last = {"op": "trainable"} if route == "trainable" else {
+        "op": "layer", "kind": draw(st.sampled_from(LAYER_KINDS))}
+    steps = uses() + [last]
+  return ctor, steps
+
+
 def c05_case():
   st = _st()
 
@@ -374,9 +537,28 @@ def c05_case():
       bounded = (cls == "quantized_bits" and alpha == "auto_po2" and
                  mode == "plain" and draw(st.booleans()))
       spread = 3 if (bounded or mode == "pts") else 6
-      xs, info = grouped_tensor(draw, shape, gid, spread=spread)
+      # a third of the bounded cases: a bound with the value 0 (the boundary
+      # value of the option; None means "no bound"), tensor magnitudes chosen
+      # so that the natural exponent lies within +-3 of it
+      zero = bounded and draw(st.integers(0, 2)) == 0
+      if zero:
+        z = kw["integer"] + ub + draw(st.integers(-3, 3))
+        xs, info = grouped_tensor(draw, shape, gid, e_lo=z, e_hi=z,
+                                  spread=spread)
+      else:
+        xs, info = grouped_tensor(draw, shape, gid, spread=spread)
       nat = info["E"] - kw["integer"] - ub     # exponent of the internal scale
-      if bounded:
+      if zero:
+        which = draw(st.sampled_from(["min", "max", "lo0", "hi0", "both0"]))
+        if which in ("min", "lo0", "both0"):
+          kw["min_po2_exponent"] = 0
+        if which in ("max", "hi0", "both0"):
+          kw["max_po2_exponent"] = 0
+        if which == "lo0":
+          kw["max_po2_exponent"] = draw(st.integers(0, 5))
+        if which == "hi0":
+          kw["min_po2_exponent"] = -draw(st.integers(0, 5))
+      elif bounded:
         lo = nat + draw(st.integers(-4, 3))
         hi = lo + draw(st.integers(0, 5))
         which = draw(st.sampled_from(["both", "min", "max"]))
@@ -406,5 +588,18 @@ def c05_case():
     case["xs"] = xs
     if draw(st.integers(0, 3)) == 0:
       case["prime"] = True
+    # rounding mode x learning phase: stochastic rounding only acts in the
+    # training phase; at inference it is documented to round deterministically
+    if draw(st.integers(0, 3)) == 0:
+      kw["use_stochastic_rounding"] = True
+      case["tf_seed"] = draw(st.integers(0, 2 ** 16))
+    if draw(st.integers(0, 2)) == 0:
+      case["phase"] = 1
+    # reconfiguration history in front of the checked call
+    if draw(st.integers(0, 3)) == 0:
+      ctor, steps = _c05_history(draw, cls, kw)
+      if steps:
+        case["cfg"] = {"cls": cls, "kw": ctor}
+        case["steps"] = steps
     return case
   return s()
